@@ -315,6 +315,12 @@ Section Ops.
       subst k'. apply Hk_ctx. apply in_map_iff. eexists. split; [|exact Hx]. reflexivity. }
     (* run the operation *)
     unfold upsert, get_leaf_by_key. rewrite Hki. unfold rbind. rewrite Hg. cbn [b_node].
+    assert (Hchk : (match amap_get bytes_eqb h (h2i s) with Some e => negb (e =? i) | None => false end) = false).
+    { destruct (amap_get bytes_eqb h (h2i s)) as [e|] eqn:Ee; [|reflexivity].
+      apply Hh2i in Ee as [k' [v' Hx]]. assert (k' = k) by (eapply Hother; exact Hx). subst k'.
+      pose proof (leaves_key_functional _ _ _ _ _ _ _ _ Hkeys Hx Hin) as Eq. injection Eq as -> _ _.
+      now rewrite N.eqb_refl. }
+    rewrite Hchk.
     unfold bind at 1. unfold remove_leaf. cbn [l_key l_hash l_parent]. rewrite Hki.
     set (s1 := mkB (blocks s) (free_insert i (free s)) (amap_del N.eqb k (k2i s)) (amap_del bytes_eqb h0 (h2i s))).
     set (nb := mkBlock false (NLeaf (mkLeaf h (ctx_par c) k v))).
@@ -420,7 +426,12 @@ Section Ops.
       assert (Hm : m_mem k (t_kv (erase (plug c lf0))) = true).
       { apply m_mem_in. fold (tkeys (erase (plug c lf0))). fold (tkeys_i (plug c lf0)). rewrite tkeys_i_keys.
         unfold it_keys. apply in_map_iff. exists (i, k, v0, h0). split; [reflexivity|exact Hin]. }
-      rewrite Hm, Hgraft. reflexivity.
+      assert (Hoth : m_hash_of_other k h (t_kv (erase (plug c lf0))) = false).
+      { destruct (m_hash_of_other k h (t_kv (erase (plug c lf0)))) eqn:Eo; [|reflexivity]. exfalso.
+        apply m_hash_of_other_spec in Eo as [k' [v' [Hx Hne]]]. rewrite erase_kv in Hx.
+        apply in_map_iff in Hx as [[[[i' k0] v0'] h0'] [E Hx]]. cbn in E. injection E as -> -> ->.
+        apply Hne. eapply Hother. exact Hx. }
+      rewrite Hm, Hoth, Hgraft. reflexivity.
   Qed.
 
   (* ---------- Inv and the executable abstraction ---------- *)
